@@ -859,6 +859,16 @@ static int property_main(const Options &o) {
   as.push("the reference concrete semantics of CrabIR (sim/machine.cpp) is the documented one");
   as.push("sampling, not enumeration: a clean batch is evidence, not proof");
   as.push("oracles are one-sided towards soundness");
+  if (o.property == "C13")
+    as.push("BV profile of the stub: two's-complement values modulo 2^w; a linear constraint is only "
+            "judged in states where its mathematical and its modular reading agree (DESIGN.md 4.5); "
+            "decides the domain half of the property, wrapint/wrapped_interval run underneath as real code");
+  if (o.property == "C15")
+    as.push("tags travel with copies only in the stub (store of a variable, load, region_copy): an "
+            "under-approximation of any taint semantics");
+  if (o.property == "C18")
+    as.push("control dependences are judged against a reference control-dependence graph "
+            "(post-dominators on the generated graph; loop heads not self-dependent, as in crab)");
   ev.set("assumptions", as);
   ev.set("wall_s", wall);
   ev.set("violations", (long)violation_lines.size());
